@@ -10,10 +10,11 @@ OUT=/verif/seeded/$NAME; mkdir -p $OUT
 cd $W || exit 3
 git diff -- src yuvxyb-math Cargo.toml > $OUT/patch.diff
 [ -s $OUT/patch.diff ] || { echo "empty patch"; exit 3; }
-cp tests/$DEMO.rs $OUT/ 2>/dev/null
-echo "== demo WITH patch";  cargo test --offline --test $DEMO 2>&1 | grep -E "^test result|error(\[|:)|Undefined|unsafe precondition" | head -3 | tee $OUT/demo_with.txt
+DD=${DEMODIR:-.}   # DEMODIR=yuvxyb-math when the demo is an integration test of the math crate
+cp $DD/tests/$DEMO.rs $OUT/ 2>/dev/null
+echo "== demo WITH patch";  (cd $DD && cargo test --offline --test $DEMO 2>&1 | grep -E "^test result|error(\[|:)|Undefined|unsafe precondition" | head -3) | tee $OUT/demo_with.txt
 git stash -q -- src yuvxyb-math 2>/dev/null || git stash -q
-echo "== demo WITHOUT patch"; cargo test --offline --test $DEMO 2>&1 | grep -E "^test result|error(\[|:)" | head -3 | tee $OUT/demo_without.txt
+echo "== demo WITHOUT patch"; (cd $DD && cargo test --offline --test $DEMO 2>&1 | grep -E "^test result|error(\[|:)" | head -3) | tee $OUT/demo_without.txt
 git stash pop -q
 echo "== suite WITH patch"; cargo test --workspace --offline --no-fail-fast --lib 2>&1 | grep -E "^test result" | head -2 | tee $OUT/suite_with.txt
 cd /verif
